@@ -13,15 +13,15 @@ import (
 type EffKind int
 
 const (
-	EffNone EffKind = iota
-	EffTransfer        // invoke on types.BankKeeper that moves coins
-	EffBankRead        // invoke on types.BankKeeper that only reads
-	EffFee             // invoke on types.DistrKeeper
-	EffStoreWrite      // collections write on a Keeper collection field
-	EffStoreRead       // collections read on a Keeper collection field
-	EffHook            // invoke on types.FundraisingHooks
-	EffEvent           // EventManager emit
-	EffStatusWrite     // BaseAuction.SetStatus / store to BaseAuction.Status
+	EffNone        EffKind = iota
+	EffTransfer            // invoke on types.BankKeeper that moves coins
+	EffBankRead            // invoke on types.BankKeeper that only reads
+	EffFee                 // invoke on types.DistrKeeper
+	EffStoreWrite          // collections write on a Keeper collection field
+	EffStoreRead           // collections read on a Keeper collection field
+	EffHook                // invoke on types.FundraisingHooks
+	EffEvent               // EventManager emit
+	EffStatusWrite         // BaseAuction.SetStatus / store to BaseAuction.Status
 )
 
 func (k EffKind) String() string {
